@@ -102,7 +102,7 @@ func VerifC17BatchLogs() {
 	sink := &vc17LogSink{}
 	bp := &batchProcessor[plog.Logs]{logger: zap.NewNop(), sendBatchSize: size, sendBatchMaxSize: max, timeout: time.Second, telemetry: vc17Telemetry()}
 	sh := &shard[plog.Logs]{processor: bp, exportCtx: context.Background(), batch: newBatchLogs(sink)}
-	if vChoice("with-timer", 2) == 1 {
+	if vParam("timer_clause") == 1 || vChoice("with-timer", 2) == 1 {
 		sh.timer = time.NewTimer(time.Second)
 	}
 	var id uint64
@@ -124,7 +124,7 @@ func VerifC17BatchLogs() {
 			pending -= len(b)
 		}
 		vAssert(sh.batch.itemCount() == pending, "batch-logs/item-count-matches-pending-payload")
-		if sh.hasTimer() && pendingBefore > 0 && len(sink.batches) == batchesBefore {
+		if vParam("timer_clause") == 1 && sh.hasTimer() && pendingBefore > 0 && len(sink.batches) == batchesBefore {
 			// structural form of "pending items are emitted no later than the timeout after the FIRST of
 			// them arrived": a later arrival that triggers no send must not restart the flush timer
 			vAssert(vTimerResets() == resetsBefore, "batch-logs/later-arrival-does-not-postpone-the-flush-deadline")
